@@ -7,6 +7,8 @@ pub struct Range {
 }
 
 impl Range {
+    #[cfg_attr(kani, kani::requires(begin <= end))]
+    #[cfg_attr(kani, kani::ensures(|r: &Range| r.begin == begin && r.end == end))]
     pub fn new(begin: usize, end: usize) -> Self {
         assert!(begin <= end);
         Range { begin, end }
@@ -41,6 +43,104 @@ impl Ord for Range {
 impl PartialOrd for Range {
     fn partial_cmp(&self, other: &Self) -> Option<Ordering> {
         Some(self.cmp(other))
+    }
+}
+
+// Verification harnesses (cargo kani); compiled only under cfg(kani).
+#[cfg(kani)]
+mod kani_harness {
+    use super::*;
+
+    fn any_range() -> Range {
+        Range {
+            begin: kani::any(),
+            end: kani::any(),
+        }
+    }
+
+    fn overlap(a: &Range, b: &Range) -> bool {
+        if a.begin <= b.begin {
+            b.begin < a.end
+        } else {
+            a.begin < b.end
+        }
+    }
+
+    #[kani::proof_for_contract(Range::new)]
+    fn range_new_contract() {
+        Range::new(kani::any(), kani::any());
+    }
+
+    // eq is "the two ranges overlap"
+    #[kani::proof]
+    fn range_eq_is_overlap() {
+        let (a, b) = (any_range(), any_range());
+        assert!((a == b) == overlap(&a, &b));
+        // symmetric on well-formed non-empty ranges (an empty range makes it asymmetric)
+        if a.begin < a.end && b.begin < b.end {
+            assert!((a == b) == (b == a));
+        }
+    }
+
+    // cmp is Equal on overlap, else the order of the begins; partial_cmp agrees
+    #[kani::proof]
+    fn range_cmp_is_overlap_or_begin_order() {
+        let (a, b) = (any_range(), any_range());
+        let c = a.cmp(&b);
+        if overlap(&a, &b) {
+            assert!(c == Ordering::Equal);
+        } else {
+            assert!(c == a.begin.cmp(&b.begin));
+        }
+        assert!(a.partial_cmp(&b) == Some(c));
+    }
+
+    // offset shifts both ends
+    #[kani::proof]
+    fn range_offset_shifts() {
+        let mut a = any_range();
+        let d: usize = kani::any();
+        kani::assume(a.begin <= a.end && a.end <= usize::MAX - d);
+        let b = a;
+        a.offset(d);
+        assert!(a.begin == b.begin + d && a.end == b.end + d);
+    }
+
+    // a one-byte probe against two adjacent non-empty keys [x,y) [y,z): Equal to the key that contains it,
+    // Greater than keys before it, Less than keys after it (what the BTreeMap lookup of origin() relies on)
+    #[kani::proof]
+    fn unit_probe_is_monotone_on_adjacent_keys() {
+        let (x, y, z, p): (usize, usize, usize, usize) = (kani::any(), kani::any(), kani::any(), kani::any());
+        kani::assume(x < y && y < z && p < usize::MAX);
+        let (k1, k2) = (Range::new(x, y), Range::new(y, z));
+        let probe = Range::new(p, p + 1);
+        let (c1, c2) = (probe.cmp(&k1), probe.cmp(&k2));
+        if p < x {
+            assert!(c1 == Ordering::Less && c2 == Ordering::Less);
+        } else if p < y {
+            assert!(c1 == Ordering::Equal && c2 == Ordering::Less);
+        } else if p < z {
+            assert!(c1 == Ordering::Greater && c2 == Ordering::Equal);
+        } else {
+            assert!(c1 == Ordering::Greater && c2 == Ordering::Greater);
+        }
+    }
+
+    // a fresh non-empty range starting at the end of the last key is Greater than that key (append in push)
+    #[kani::proof]
+    fn appended_range_is_greater() {
+        let (x, y, z): (usize, usize, usize) = (kani::any(), kani::any(), kani::any());
+        kani::assume(x < y && y < z);
+        assert!(Range::new(y, z).cmp(&Range::new(x, y)) == Ordering::Greater);
+    }
+
+    // the arithmetic of PreprocessedText::origin stays in range
+    #[kani::proof]
+    fn origin_arithmetic_in_range() {
+        let (kb, ke, sb, pos): (usize, usize, usize, usize) = (kani::any(), kani::any(), kani::any(), kani::any());
+        kani::assume(kb < ke && kb <= pos && pos < ke && sb <= usize::MAX - (ke - kb));
+        let r = pos - kb + sb;
+        assert!(sb <= r && r < sb + (ke - kb));
     }
 }
 
